@@ -9,6 +9,18 @@ NOTE_COMMON = ("Trusted: Lean 4.33 kernel; axioms propext/Classical.choice/Quot.
                "differential execution (sampling, not proof); harness, generators and the cfg(sentinel_verif) hooks; std, lru, serde are not modelled.")
 
 CLAIMS = {
+ "C09": dict(
+    category="proof",
+    text=("system_decision: for every rule list and every observation the system slot blocks iff the entry is inbound and some rule trips; trips_iff_spec spells the code's "
+          "per-rule check metric by metric and strategy by strategy exactly as the property words it (QPS / concurrency / avg RT at-or-above; load / CPU strictly above and, under BBR, "
+          "only with more than one request in flight exceeding max_complete*min_rt/1000); system_outbound_untouched, outbound_never_system_blocked, system_block_carries (tripping rule + "
+          "observed value as snapshot), system_trip_blocks (world level), sysObs_from_history (the observed QPS / min RT are the C02 window values of the inbound history). "
+          "Tied to system/slot.rs, system/rule.rs, rule_manager.rs, system_metric.rs, node_storage.rs through EntryBuilder on the real chain with real inbound traffic and injected "
+          "load/CPU readings; the decision Spec is evaluated on the implementation's own pass/exit history."),
+    design_ref="DESIGN.md §6 C09",
+    technique="Lean 4 proofs of the decision logic + differential correspondence (real inbound histories, injected readings) + Spec oracle on implementation traces",
+    note=NOTE_COMMON + " The BBR capacity estimate is a float mul/div chain reproduced with the integer soft-float; it is validated through the decisions it produces in the correspondence run. "
+         "Rule iteration order (HashMap/HashSet) is adopted from the implementation; theorems hold for every order."),
  "C01": dict(
     category="proof",
     text=("flow_admit_iff / flow_admit_iff_run: for every rule list (any number, any thresholds incl. fractional and 0, any stat_interval_ms: default, "
